@@ -17,10 +17,11 @@ EXTENDS TMIndexer, TraceKit
 
 Trace == LoadTrace("trace.ndjson")
 
-VARIABLES l, chain, txdb, blkdb, direct, viol, drift
-vars == <<l, chain, txdb, blkdb, direct, viol, drift>>
+VARIABLES l, chain, txdb, blkdb, direct, users, pubd, viol, drift
+vars == <<l, chain, txdb, blkdb, direct, users, pubd, viol, drift>>
 
-Init == l = 1 /\ chain = << >> /\ txdb = EmptyTxDB /\ blkdb = EmptyBlockDB /\ direct = "" /\ viol = {} /\ drift = {}
+Init == /\ l = 1 /\ chain = << >> /\ txdb = EmptyTxDB /\ blkdb = EmptyBlockDB /\ direct = ""
+        /\ users = << >> /\ pubd = << >> /\ viol = {} /\ drift = {}
 
 D(what, spec) == [l |-> l, what |-> what, spec |-> spec]
 V(inv, class) == [l |-> l, inv |-> inv, class |-> class]
@@ -34,7 +35,34 @@ DupTx(r, txs) == \E x \in txs : x # r /\ x.tx = r.tx
 
 StepReset(e) ==
   /\ chain' = << >> /\ txdb' = EmptyTxDB /\ blkdb' = EmptyBlockDB /\ direct' = e.direct
+  /\ users' = e.subs /\ pubd' = << >>
   /\ UNCHANGED <<viol, drift>>
+
+\* ------------------------------------------------------------ user subscriptions on the same bus
+\* users = the other subscribers of the event bus (queries that may not be evaluable on
+\* some events, readers that never read); pubd = what has been published so far.
+OutOfCapacityText == "internal subscription event buffer is out of capacity"
+Messages(b) == <<[label |-> "blk:" \o ToString(b.height), events |-> BusEventsBlock(b, "NewBlock")],
+                 [label |-> "hdr:" \o ToString(b.height), events |-> BusEventsBlock(b, "NewBlockHeader")]>>
+               \o [i \in 1..Len(b.txs) |-> [label |-> "tx:" \o b.txs[i].tx, events |-> BusEventsTx(b.txs[i])]]
+RECURSIVE Wanted(_, _, _)
+Wanted(msgs, q, i) == IF i > Len(msgs) THEN << >>
+                      ELSE IF Matches(q, msgs[i].events) = "TRUE" THEN <<msgs[i].label>> \o Wanted(msgs, q, i + 1)
+                      ELSE Wanted(msgs, q, i + 1)
+IsPrefixOf(a, b) == Len(a) <= Len(b) /\ SubSeq(b, 1, Len(a)) = a
+UserViol(msgs, u, o) ==       \* u = [c, q, cap] as subscribed, o = what was observed of it
+  LET want == Wanted(msgs, u.q, 1) IN
+  IF u.cap = 0 THEN
+       \* read eagerly: exactly the matching publications, in order; never cancelled
+       IF o.got = want /\ ~o.cancelled THEN {}
+       ELSE IF o.cancelled THEN {V("Isolation", "eventbus_subscriber_cancelled")}
+       ELSE IF IsPrefixOf(o.got, want) THEN {V("ExactDelivery", "eventbus_subscriber_missed")}
+       ELSE {V("ExactDelivery", "eventbus_subscriber_unexpected_delivery")}
+  ELSE \* never read: keeps the first cap matching ones, is cancelled by the next one, explicitly
+       IF /\ o.nbuf = (IF Len(want) < u.cap THEN Len(want) ELSE u.cap)
+          /\ o.cancelled = (Len(want) > u.cap)
+          /\ o.err = (IF Len(want) > u.cap THEN OutOfCapacityText ELSE "nil")
+       THEN {} ELSE {V("Isolation", "eventbus_slow_subscriber_state")}
 
 RECURSIVE IndexEach(_, _, _)
 IndexEach(db, txs, i) == IF i > Len(txs) THEN db ELSE IndexEach(TxIndexOne(db, txs[i]), txs, i + 1)
@@ -48,7 +76,9 @@ StepBlock(e) ==
       newch == Append(chain, b)
       okTxBefore(r) == TxIndexedOnce(txdb, r)
       all   == AllTxs \cup SeqToSet(b.txs)
+      msgs  == IF direct = "" THEN pubd \o Messages(b) ELSE pubd
   IN /\ chain' = newch /\ txdb' = otx /\ blkdb' = oblk /\ direct' = direct
+     /\ users' = users /\ pubd' = msgs
      /\ drift' = drift
            \cup FailIf(otx # ptx, D("tx store differs from TMIndexer", "-"))
            \cup FailIf(oblk # pblk, D("block store differs from TMIndexer", "-"))
@@ -70,6 +100,8 @@ StepBlock(e) ==
                        V("IndexOnce", "uncommitted_tx_indexed"))
            \cup FailIf(\E h \in oblk.prim : \A i \in 1..Len(newch) : newch[i].height # h,
                        V("IndexOnce", "uncommitted_block_indexed"))
+           \* the other subscribers of the bus (through the real EventBus only)
+           \cup UNION {UserViol(msgs, users[i], e.users[i]) : i \in 1..Len(e.users)}
 
 StepTxSearch(e) ==
   LET got   == {Pos(t) : t \in SeqToSet(e.txs)}
@@ -87,7 +119,7 @@ StepTxSearch(e) ==
            \cup {V("SearchExact", Cause("tx", e.q, TxEventsOf(r), DupTx(r, AllTxs)) \o (IF got # spec THEN ":unmodelled" ELSE "")) : r \in dis}
            \cup FailIf(\E g \in got : \A r \in AllTxs : Pos(r) # g, V("SearchExact", "item_never_committed"))
            \cup FailIf(Cardinality(got) # Len(e.txs), V("SearchExact", "item_returned_twice"))
-     /\ UNCHANGED <<chain, txdb, blkdb, direct>>
+     /\ UNCHANGED <<chain, txdb, blkdb, direct, users, pubd>>
 
 StepBlockSearch(e) ==
   LET got   == SeqToSet(e.heights)
@@ -103,7 +135,7 @@ StepBlockSearch(e) ==
            \cup {V("SearchExact", Cause("block", e.q, BlockEventsOf(b), FALSE) \o (IF got # spec THEN ":unmodelled" ELSE "")) : b \in dis}
            \cup FailIf(\E g \in got : \A b \in SeqToSet(chain) : b.height # g, V("SearchExact", "item_never_committed"))
            \cup FailIf(Cardinality(got) # Len(e.heights), V("SearchExact", "item_returned_twice"))
-     /\ UNCHANGED <<chain, txdb, blkdb, direct>>
+     /\ UNCHANGED <<chain, txdb, blkdb, direct, users, pubd>>
 
 Step ==
   /\ l <= Len(Trace)
@@ -118,7 +150,7 @@ Finish ==
   /\ l = Len(Trace) + 1
   /\ WriteVerdict("verdict.json", Len(Trace), viol, drift)
   /\ l' = l + 1
-  /\ UNCHANGED <<chain, txdb, blkdb, direct, viol, drift>>
+  /\ UNCHANGED <<chain, txdb, blkdb, direct, users, pubd, viol, drift>>
 
 Next == Step \/ Finish
 =============================================================================
